@@ -80,8 +80,8 @@ EPS = ref.EPS
 
 def plan(tier):
     if tier == "quick":
-        return collections.OrderedDict(knn=360, knn_nested=60, median=300, mask=300, mask_grid=300)
-    return collections.OrderedDict(knn=5400, knn_nested=900, median=4500, mask=4500, mask_grid=4500)
+        return collections.OrderedDict(knn=360, knn_nested=60, median=300, mask=300, mask_grid=300, mask_exact=200)
+    return collections.OrderedDict(knn=5400, knn_nested=900, median=4500, mask=4500, mask_grid=4500, mask_exact=3000)
 
 
 # ----------------------------------------------------------------------
@@ -130,6 +130,19 @@ class Warp:
         return "Warp(x0=%r, y0=%r, length=%r)" % (self.x0, self.y0, self.length)
 
 
+class IntegerMap:
+    """(a*x + p, b*y + q) with integer a, b, p, q: integer coordinates stay integer (a = b = 1, p = q = 0 is the identity)."""
+
+    def __init__(self, a=1, b=1, p=0, q=0):
+        self.a, self.b, self.p, self.q = int(a), int(b), int(p), int(q)
+
+    def __call__(self, east, north):
+        return np.asarray(east) * self.a + self.p, np.asarray(north) * self.b + self.q
+
+    def __repr__(self):
+        return "IntegerMap(a=%d, b=%d, p=%d, q=%d)" % (self.a, self.b, self.p, self.q)
+
+
 def _projection(rng, east, north):
     """None or a projection that visibly changes distances over this cloud."""
     kind = int(rng.integers(0, 4))
@@ -170,6 +183,34 @@ def nearest_distance(qx, qy, px, py, chunk=200_000):
     for lo in range(0, qx.size, step):
         out[lo:lo + step] = distance_matrix(qx[lo:lo + step], qy[lo:lo + step], px, py).min(axis=1)
     return out
+
+
+def integer_valued(*arrays, bound=2.0 ** 20):
+    """All values are integers of magnitude < 2**20: differences, squares and their sums are exact in float64/int64."""
+    for arr in arrays:
+        arr = np.asarray(arr, dtype="float64")
+        if arr.size and not (np.all(np.isfinite(arr)) and np.all(arr == np.rint(arr)) and np.all(np.abs(arr) < bound)):
+            return False
+    return True
+
+
+def nearest_squared_integer(qx, qy, px, py, chunk=200_000):
+    """
+    Exact squared distance (int64) to the nearest data point for integer-valued coordinates, and whether some nearest
+    data point lies off both axes through the query (a genuinely Pythagorean offset).
+    """
+    qx, qy, px, py = (np.rint(v).astype("int64") for v in (qx, qy, px, py))
+    out = np.empty(qx.size, dtype="int64")
+    diagonal = np.zeros(qx.size, dtype=bool)
+    step = max(1, chunk // max(px.size, 1))
+    for lo in range(0, qx.size, step):
+        ddx = qx[lo:lo + step, None] - px[None, :]
+        ddy = qy[lo:lo + step, None] - py[None, :]
+        d2 = ddx * ddx + ddy * ddy
+        best = d2.min(axis=1)
+        out[lo:lo + step] = best
+        diagonal[lo:lo + step] = ((d2 == best[:, None]) & (ddx != 0) & (ddy != 0)).any(axis=1)
+    return out, diagonal
 
 
 def _maxabs(*arrays):
@@ -456,8 +497,38 @@ def install(tap, run):
         run.count("class:mask_query_%dd" % q0.ndim)
         nearest = nearest_distance(pqx, pqy, pdx, pdy)
         margin = TIE_REL * abs(maxdist) + 16 * EPS * _maxabs(pdx, pdy, pqx, pqy) + np.finfo("float64").tiny
-        must_true = (nearest < maxdist - margin).reshape(q0.shape)
-        must_false = (nearest > maxdist + margin).reshape(q0.shape)
+        must_true = nearest < maxdist - margin
+        must_false = nearest > maxdist + margin
+        # Exact class: where the distance is computed WITHOUT any rounding by every correct implementation, equality with
+        # maxdist is not a tie: "no farther than maxdist" means d <= maxdist and the cell must be True.
+        #  (a) all (projected) coordinates integer-valued with |v| < 2**20 and the squared nearest distance a perfect square
+        #      (Pythagorean / axis-aligned offsets): dx*dx + dy*dy is an exact integer < 2**42 and its square root is exact;
+        #  (b) no projection and the query coincides with a data point: d = 0 exactly.
+        strict = np.zeros(nearest.shape, dtype=bool)
+        exact_root = np.zeros(nearest.shape)
+        if integer_valued(pdx, pdy, pqx, pqy):
+            run.count("class:mask_integer_coordinates")
+            d2min, diagonal = nearest_squared_integer(pqx, pqy, pdx, pdy)
+            root = np.rint(np.sqrt(d2min.astype("float64"))).astype("int64")
+            strict = root * root == d2min
+            exact_root = root.astype("float64")
+            n_pyth = int((strict & diagonal & (exact_root == maxdist)).sum())
+            if n_pyth:
+                run.count("strict:mask_cells_at_exactly_maxdist_pythagorean", n_pyth)
+        elif projection is None:
+            strict = nearest == 0.0
+        if strict.any():
+            must_true = np.where(strict, exact_root <= maxdist, must_true)
+            must_false = np.where(strict, exact_root > maxdist, must_false)
+            n_equal = int((strict & (exact_root == maxdist)).sum())
+            run.count("strict:mask_cells_exact_distance", int(strict.sum()))
+            if n_equal:
+                run.count("strict:mask_cells_at_exactly_maxdist", n_equal)
+                run.count("strict:mask_calls_with_cells_at_exactly_maxdist_" + form)
+                if maxdist == 0.0:
+                    run.count("strict:mask_zero_maxdist_on_a_data_point", n_equal)
+        must_true = must_true.reshape(q0.shape)
+        must_false = must_false.reshape(q0.shape)
         n_edge = int((~must_true & ~must_false).sum())
         if n_edge:
             run.count("either_way:mask_distance_equals_maxdist", n_edge)
@@ -471,7 +542,7 @@ def install(tap, run):
             run.violation(
                 "distance_mask." + form,
                 msg or ("query %s (%r, %r): nearest data point is at distance %r %s maxdist %r after projecting both point sets, but the cell is %s"
-                        % (j, float(qx[flat]), float(qy[flat]), float(nearest[flat]), "<" if kind == "kept_missing" else ">", maxdist,
+                        % (j, float(qx[flat]), float(qy[flat]), float(nearest[flat]), "<=" if kind == "kept_missing" else ">", maxdist,
                            "masked" if kind == "kept_missing" else "kept")),
                 dict(witness, cell=list(j), nearest_distance=float(nearest[flat]), margin=margin, **(extra or {})),
                 key="mask:%s:%s" % (form, kind))
@@ -838,6 +909,87 @@ def _mask_grid_case(run, verde, rng):
                              "masked_cells": int(np.isnan(out["scalars"].values).sum())})
 
 
+def _mask_exact_case(run, verde, rng):
+    """
+    Integer-valued coordinates (|v| < 2**20, also after the integer-preserving projection) with Pythagorean and axis-aligned
+    offsets and maxdist equal to such an exact distance (or 0 on a data point): d == maxdist is decided, it must be True.
+    """
+    import xarray as xr
+
+    for _ in range(3):
+        pick = int(rng.integers(0, 4))
+        if pick == 0:
+            projection = None
+        elif pick == 1:
+            projection = IntegerMap()
+        else:
+            projection = IntegerMap(int(rng.choice([1, 2, 3, -1, -2])), int(rng.choice([1, 2, 3, -1])),
+                                    int(rng.integers(-1000, 1000)), int(rng.integers(-1000, 1000)))
+        ox, oy = (int(v) for v in rng.integers(-2 ** 17, 2 ** 17, 2)) if rng.random() < 0.6 else (int(rng.integers(-20, 20)), int(rng.integers(-20, 20)))
+        ne, nn = int(rng.integers(8, 34)), int(rng.integers(8, 30))
+        if ne == nn and rng.random() < 0.8:
+            ne += 1
+        step = int(rng.choice([1, 1, 1, 2, 3]))
+        ev = ox + np.arange(ne) * step
+        nv = oy + np.arange(nn) * step
+        if rng.random() < 0.3:
+            nv = nv[::-1].copy()
+        n_data = int(rng.choice([1, 1, 2, 3, 4, 8]))
+        de = ev[rng.integers(0, ne, n_data)] + (rng.integers(-2, 3, n_data) if rng.random() < 0.3 else 0)
+        dn = nv[rng.integers(0, nn, n_data)] + (rng.integers(-2, 3, n_data) if rng.random() < 0.3 else 0)
+        de[0], dn[0] = ev[int(rng.integers(0, ne))], nv[int(rng.integers(0, nn))]  # one data point on a grid node
+        qx = np.broadcast_to(ev[None, :], (nn, ne)).ravel()
+        qy = np.broadcast_to(nv[:, None], (nn, ne)).ravel()
+        if projection is None:
+            pq, pd = (qx, qy), (de, dn)
+        else:
+            pq, pd = projection(qx, qy), projection(de, dn)
+        d2, diagonal = nearest_squared_integer(pq[0], pq[1], pd[0], pd[1])
+        root = np.rint(np.sqrt(d2.astype("float64"))).astype("int64")
+        perfect = root * root == d2
+        choice = rng.random()
+        pyth = np.unique(root[perfect & diagonal & (root > 0)])
+        axis = np.unique(root[perfect & (root > 0)])
+        if choice < 0.4 and pyth.size:
+            maxdist = float(rng.choice(pyth))
+        elif choice < 0.7 and axis.size:
+            maxdist = float(rng.choice(axis))
+        elif choice < 0.85:
+            maxdist = 0.0
+        else:
+            maxdist = float(np.sqrt(float(rng.choice(d2[d2 > 0])))) if (d2 > 0).any() else 1.5
+        if maxdist == np.rint(maxdist) and rng.random() < 0.3:
+            maxdist = int(maxdist)
+        as_int = rng.random() < 0.4
+        data_coords = (de.astype("int64"), dn.astype("int64")) if as_int else (de.astype("float64"), dn.astype("float64"))
+        if n_data == 1 and rng.random() < 0.4:
+            data_coords = (float(de[0]), float(dn[0]))
+        form = int(rng.integers(0, 3))
+        if form == 0:  # 2-D mesh, array form
+            dtype = "int64" if rng.random() < 0.4 else "float64"
+            query = (qx.reshape(nn, ne).astype(dtype), qy.reshape(nn, ne).astype(dtype))
+            out = verde.distance_mask(data_coords, maxdist, coordinates=query, projection=projection)
+            kept = int(np.sum(out))
+        elif form == 1:  # scattered subset of the nodes, array form
+            take = rng.permutation(qx.size)[: int(rng.integers(1, qx.size + 1))]
+            query = (qx[take].astype("float64"), qy[take].astype("float64"))
+            out = verde.distance_mask(data_coords, maxdist, coordinates=query, projection=projection)
+            kept = int(np.sum(out))
+        else:  # grid form
+            dn_name, de_name = DIM_NAMES[int(rng.integers(0, len(DIM_NAMES)))]
+            cell_id = np.arange(nn * ne, dtype="float64").reshape(nn, ne)
+            variables = collections.OrderedDict()
+            variables["scalars"] = ((dn_name, de_name), 1000.0 + cell_id)
+            variables["second"] = ((dn_name, de_name), (7 * cell_id[::-1, ::-1] - 3).astype("int64"))
+            coord_dtype = "int64" if rng.random() < 0.4 else "float64"
+            grid = xr.Dataset(variables, coords={de_name: ev.astype(coord_dtype), dn_name: nv.astype(coord_dtype)})
+            out = verde.distance_mask(data_coords, maxdist, grid=grid, projection=projection)
+            kept = int(np.isfinite(out["scalars"].values).sum())
+    run.sample("mask_exact", {"data_coordinates": [de, dn], "maxdist": maxdist, "projection": repr(projection), "eastings": ev, "northings": nv,
+                              "form": ["mesh", "scattered", "grid"][form], "cells_kept": kept,
+                              "cells_at_exactly_maxdist": int((perfect & (root == maxdist)).sum())})
+
+
 def run_case(run, tap, stream, index, rng):
     import verde
 
@@ -852,6 +1004,8 @@ def run_case(run, tap, stream, index, rng):
         _mask_case(run, verde, rng)
     elif stream == "mask_grid":
         _mask_grid_case(run, verde, rng)
+    elif stream == "mask_exact":
+        _mask_exact_case(run, verde, rng)
     else:
         raise ValueError(stream)
 
